@@ -22,6 +22,8 @@ def decorate(ctx, w, mon_p=0.5):
         sc["mon"] = {"incl": rng.choice([0, 1]), "gaps": [rng.choice([0, 1, 1, 2, 3]) for _ in range(rng.randint(1, 6))]}
     if rng.random() < 0.12:
         sc["t0"] = rng.choice([-50, -7, 3, 100])        # the environment's clock does not start at 0
+    if rng.random() < 0.15:
+        sc["tscale"] = rng.choice([-40, -33, 20, 30])   # the same scenario in another time unit (tick = 2**e s)
     if rng.random() < 0.08:
         # the port is the last element of the path (out = None / never assigned): only counters and samples are seen
         sc["noout"] = rng.choice([1, 2])
